@@ -444,7 +444,7 @@ int main() {
     std::string r;
     try { r = eval(t); }
     catch (const primitiv::Error &) { r = "err"; }
-    catch (const std::bad_alloc &) { r = "err-bad-alloc"; }
+    catch (const std::bad_alloc &) { r = "err"; }
     catch (const std::exception &e) { r = std::string("other-exception ") + e.what(); }
     if (tl) alarm(0);
     std::cout << r << "\n";
